@@ -192,11 +192,17 @@ def mergeChrom (d : Nat) (c : Nat) (l : List Iv) : Option (List Iv) :=
 def mergeFixed (d : Nat) (ivs : List Iv) : Option (List Iv) :=
   (omap (fun g => mergeChrom d g.1 g.2) (runs ivs)).map List.flatten
 
+/-- `np.all(a[:-1] <= a[1:])` -/
+def sortedAdj : List Nat → Bool
+  | x :: y :: r => x ≤ y && sortedAdj (y :: r)
+  | _ => true
+
 /-- the in-memory entry points (`Geometry.merge_intervals`, `GenomicIntervalsFull.merged`): the conversion to
-concatenated coordinates is run first for its checks (an interval that does not lie inside its chromosome raises),
-then the per-chromosome merge -/
+concatenated coordinates is run first for its checks (an interval that does not lie inside its chromosome raises)
+and the global starts must be non-decreasing (genome order), then the per-chromosome merge -/
 def mergeChecked (d : Nat) (sizes : List Nat) (ivs : List Iv) : Option (List Iv) :=
-  if ivs.all (fun iv => iv.valid sizes) then mergeFixed d ivs else none
+  if ivs.all (fun iv => iv.valid sizes) && sortedAdj (ivs.map (fun iv => offset sizes iv.c + iv.s))
+  then mergeFixed d ivs else none
 
 /-- specification: for every chromosome in genome order, the single-contig merge of its own entries -/
 def specMerge (d : Nat) (n : Nat) (ivs : List Iv) : Option (List Iv) :=
